@@ -176,4 +176,51 @@ theorem getCore_safe (fuel : Nat) (root : Val) (xp : Str) (dflt : Val) (raise rl
   | str s => unfold getCore; simp
 
 end
+/-! ### no hypothesis at all (after fix C04-a)
+
+Since the `new()` step of the search no longer writes (and no longer raises `KeyError` at the root), no
+index text has to be excluded: the always-true predicate is a safety predicate, every tree has "safe"
+keys, and every theorem of this development holds for every path and every tree. -/
+
+/-- the always-true predicate -/
+def AnyStr : Str → Prop := fun _ => True
+
+instance : SafePred AnyStr where
+  sub := fun _ _ => trivial
+  noW := fun _ => trivial
+  glue := fun _ _ _ => trivial
+  fixBr := fun _ => trivial
+
+mutual
+theorem safeKeys_any : ∀ (v : Val), SafeKeys AnyStr v
+  | .list _ xs => by rw [SafeKeys]; exact safeKeysL_any xs
+  | .dict _ kvs => by rw [SafeKeys]; exact safeKeysK_any kvs
+  | .none => by simp [SafeKeys]
+  | .bool _ => by simp [SafeKeys]
+  | .int _ => by simp [SafeKeys]
+  | .flt _ => by simp [SafeKeys]
+  | .str _ => by simp [SafeKeys]
+theorem safeKeysL_any : ∀ (xs : List Val), SafeKeysL AnyStr xs
+  | [] => by rw [SafeKeysL]; trivial
+  | x :: xs => by rw [SafeKeysL]; exact ⟨safeKeys_any x, safeKeysL_any xs⟩
+theorem safeKeysK_any : ∀ (kvs : List (Str × Val)), SafeKeysK AnyStr kvs
+  | [] => by rw [SafeKeysK]; trivial
+  | (k, v) :: kvs => by rw [SafeKeysK]; exact ⟨trivial, safeKeys_any v, safeKeysK_any kvs⟩
+end
+
+/-- `_get` on **any** path and **any** tree: the tree is unchanged; an exception is a model-only
+outcome, or (only when the caller asked for exceptions) a funnelled class or KeyError -/
+theorem getCore_any (fuel : Nat) (root : Val) (xp : Str) (dflt : Val) (raise rl : Bool) :
+    (getCore fuel root xp dflt raise rl).1 = root ∧
+    ∀ e, (getCore fuel root xp dflt raise rl).2 = .error e →
+      (raise = true ∧ startsWith xp ['?'] = false ∧ (caught e = true ∨ e = .KeyError)) ∨
+        e = .OutOfFuel ∨ e = .Unsupported :=
+  getCore_safe (P := AnyStr) fuel root xp dflt raise rl trivial (safeKeys_any root)
+
+/-- the dict-side resolver never changes the tree and fails only with funnelled or model-only classes -/
+theorem findD_any (fuel : Nat) (root : Val) (sp : Pos) (entry rl : Bool) (toks : List Str) (par : PRef) (found : Str) :
+    Post AnyStr root (findD fuel root sp false entry toks par rl found) :=
+  (find_post (P := AnyStr) root (safeKeys_any root) fuel).1 sp entry toks par rl found
+    (fun v _ => safeKeys_any v) (fun _ _ => trivial) trivial
+
 end N0.XPath
